@@ -260,8 +260,8 @@ func (r *run) observe() {
 	}
 	listing := []int{}
 	var total int64
-	for off := int64(0); ; off += 7 { // (small pages: pagination is part of the listing)
-		res := ex.ListSwamps(&explorer.SwampFilter{Offset: off, Limit: 7})
+	for off := int64(0); ; off += 3 { // (small pages: pagination is part of the listing)
+		res := ex.ListSwamps(&explorer.SwampFilter{Offset: off, Limit: 3})
 		total = res.Total
 		for _, d := range res.Swamps {
 			listing = append(listing, r.intern(d.Sanctuary+"/"+d.Realm+"/"+d.Swamp))
